@@ -120,6 +120,13 @@ def main(argv=None):
             total_obl += n
             unit_rows.append(dict(unit='lemmas of group %s' % g, group=g, source='prelude/*.rs (spec-level proof functions, no code)', obligations=n,
                                   labels=P.get('lemma_names', [])))
+            try:
+                gen = open(r.get('file') or os.path.join(os.environ.get('VERIF_BUILD') or os.path.join(VERIF, 'build'), pid, g + '.rs')).read()
+            except OSError:
+                gen = ''
+            lost = [l for l in P.get('lemma_names', []) if not re.search(r'proof fn %s\b' % re.escape(l), gen)]
+            if lost and r['status'] == 'ok':
+                undecided.append('lemma(s) missing from group %s: %s' % (g, ', '.join(lost)))
         for lb in mp['labels']:
             if lb['label'] and pid in label_props(lb) and len(samples) < 6:
                 samples.append(dict(obligation=lb['label'], unit=lb['unit'], kind=lb['kind'], clause=lb['text'][:300], backend='verus/z3'))
